@@ -57,6 +57,7 @@ type nodeT struct {
 	alive  bool   // the Kubernetes node exists (ground truth == API server)
 	inc    int    // incarnation number
 	goneAt time.Duration
+	bornAt time.Duration // when the current incarnation was created
 	// the Calico Node resource is present in the datastore
 	calicoPresent bool
 	tunnel        bool // this node allocates a tunnel address when it starts
@@ -182,6 +183,9 @@ type world struct {
 
 	checkKick chan struct{}
 	quiesced  bool
+	// gcIdleSeenAt: the last scheduler step at which the controller had no call in flight (it was idle in its main
+	// loop): a lower bound for the start of the sync pass it is executing now.
+	gcIdleSeenAt time.Duration
 
 	// fault rates (permille)
 	pKlErr, pKlConflict     int
@@ -402,6 +406,7 @@ func (w *world) apiDeletePod(p *podT) {
 func (w *world) startNode(n *nodeT) {
 	n.alive = true
 	n.inc++
+	n.bornAt = w.now()
 	obj := w.k8sNodeObj(n)
 	if err := w.cs.Tracker().Add(obj); err != nil {
 		w.r.HarnessError("tracker add node %s: %v", n.kname, err)
